@@ -36,7 +36,7 @@ package momentum
 //@ func IchimokuCloud.Compute
 //@ requires i.ConversionMax.Period >= 1 && i.ConversionMin.Period == i.ConversionMax.Period && i.BaseMax.Period >= i.ConversionMax.Period && i.BaseMin.Period == i.BaseMax.Period && i.LeadingMax.Period >= i.BaseMax.Period && i.LeadingMin.Period == i.LeadingMax.Period && i.LaggingPeriod >= 0 && consumed(highs) == 0 && consumed(lows) == 0 && consumed(closings) == 0 && len(highs) == len(lows) && len(highs) == len(closings)
 //@ ensures[C02] len(result0) == max(0, len(highs) - (i.IdlePeriod())) && len(result1) == max(0, len(highs) - (i.IdlePeriod())) && len(result2) == max(0, len(highs) - (i.IdlePeriod())) && len(result3) == max(0, len(highs) - (i.IdlePeriod()))
-//@ ensures[C02] "len-lagging-span" len(result4) == max(0, len(highs) - (i.IdlePeriod()))
+//@ guarantees[C02] "len-lagging-span" len(result4) == max(0, len(highs) - (i.IdlePeriod()))
 //@ ensures[C03] consumed(highs) == len(highs) && consumed(lows) == len(lows) && consumed(closings) == len(closings) && closed(result0) && closed(result1) && closed(result2) && closed(result3) && closed(result4)
 //@ ensures[C04] forall kk :: 0 <= kk && kk < len(result0) ==> hor(result0, kk) <= max(hor(highs, kk + (i.IdlePeriod())), max(hor(lows, kk + (i.IdlePeriod())), hor(closings, kk + (i.IdlePeriod()))))
 //@ ensures[C04] forall kk :: 0 <= kk && kk < len(result1) ==> hor(result1, kk) <= max(hor(highs, kk + (i.IdlePeriod())), max(hor(lows, kk + (i.IdlePeriod())), hor(closings, kk + (i.IdlePeriod()))))
@@ -95,6 +95,18 @@ package momentum
 //@ stream gainS(c stream)[j] = (c[j+1] - c[j] > 0 ? c[j+1] - c[j] : 0)
 //@ stream lossS(c stream)[j] = (c[j+1] - c[j] < 0 ? c[j+1] - c[j] : 0)
 //@ stream rsiS(c stream, P int)[k] = 100 - 100 * (1 / (1 + rmaS(gainS(c), P, k) / (0 - rmaS(lossS(c), P, k))))
+// C18: RSI does not depend on the price unit
+//@ lemma gainS_scale(c stream, d stream, lam real, j int)
+//@ requires[C18] lam > 0 && d[j] == lam * c[j] && d[j+1] == lam * c[j+1]
+//@ ensures[C18] gainS(d)[j] == lam * gainS(c)[j] && lossS(d)[j] == lam * lossS(c)[j]
+//@ use mul_cmp(lam, c[j+1] - c[j], 0)
+//@ lemma rsiS_scale(c stream, d stream, lam real, P int, k int)
+//@ requires[C18] lam > 0 && P >= 1 && k >= 0 && (forall j :: 0 <= j && j <= k + P ==> d[j] == lam * c[j]) && rmaS(lossS(c), P, k) != 0
+//@ ensures[C18] rsiS(d, P)[k] == rsiS(c, P)[k]
+//@ use forall j :: gainS_scale(c, d, lam, j)
+//@ use rma_scale(gainS(c), gainS(d), lam, P, k)
+//@ use rma_scale(lossS(c), lossS(d), lam, P, k)
+//@ use ratio_scale(lam, rmaS(gainS(c), P, k), 0 - rmaS(lossS(c), P, k))
 // the documented RSI lies in [0,100] wherever its denominator (the average loss) is not zero
 //@ lemma rsiS_range(c stream, P int, k int)
 //@ requires[C15] P >= 1 && k >= 0 && rmaS(lossS(c), P, k) < 0
@@ -146,6 +158,14 @@ package momentum
 //@ use stochD_range(highs, lows, closings, s.Min.Period, s.Sma.Period, _)
 //@ ensures[C15] "d-range" forall k :: 0 <= k && k < len(result1) && (forall j :: k <= j && j < k + s.Sma.Period ==> stochok(highs, lows, closings, s.Min.Period, j)) ==> 0 <= result1[k] && result1[k] <= 100
 
+//@ lemma stochKS_pscale(h stream, l stream, c stream, h2 stream, l2 stream, c2 stream, lam real, P int, n int, j int)
+//@ requires[C18] lam > 0 && P >= 1 && 0 <= j && j + P <= n && (forall i :: 0 <= i && i < n ==> h2[i] == lam * h[i] && l2[i] == lam * l[i] && c2[i] == lam * c[i]) && wmaxS(h, j, j + P) != wminS(l, j, j + P)
+//@ ensures[C18] stochKS(h2, l2, c2, P)[j] == stochKS(h, l, c, P)[j]
+//@ use wmax_scale(h, h2, lam, j, j + P)
+//@ use wmin_scale(l, l2, lam, j, j + P)
+//@ use mul_lin(lam, c[j + P - 1], wminS(l, j, j + P))
+//@ use mul_lin(lam, wmaxS(h, j, j + P), wminS(l, j, j + P))
+//@ use ratio_scale(lam, c[j + P - 1] - wminS(l, j, j + P), wmaxS(h, j, j + P) - wminS(l, j, j + P))
 // Stochastic RSI = (RSI - lowest RSI) / (highest RSI - lowest RSI) over the window ending at the bar
 //@ stream stochRsiS(c stream, P int, W int)[k] = (rsiS(c, P)[k + W - 1] - wminS(rsiS(c, P), k, k + W)) / (wmaxS(rsiS(c, P), k, k + W) - wminS(rsiS(c, P), k, k + W))
 //@ lemma stochRsi_range(c stream, P int, W int, k int)
